@@ -11,6 +11,7 @@
 //! Request:  `id <op> layout=… be=… n= nl= bs= rank= b= kbrk= katk= ktsk= kksg= kksl= ksg=<0|1> sxs= sxa= sxe= [reps=] [sig=]`
 //!           `nzt=<k>` (self-test of the check only): the tsk sub-key is encrypted with NoiseInfos of precision k instead of ktsk
 //!           (core layouts: the keys of `pvh rnd`)
+//!   brkc_check : C19 tie of the compressed blind-rotation key (same answer fields as `pvh cmp`)
 //!   bstats : per sub-key group `g=<name>:<k>:<scale>:<limb>:<m>:<sum>:<sumsq>:<maxabs>` pooled over `reps` bundles — integer errors
 //!            read off the exact phase of every cell under the clear secret of that sub-key (i128 arithmetic)
 //!   bmasks : `words=<raw u64 of Source::new(seed32(sxa))>` and per group in consumption order
@@ -301,6 +302,119 @@ bundle_backend!(bundle_ntt120ref, NTT120Ref);
 bundle_backend!(bundle_fft64avx, FFT64Avx);
 bundle_backend!(bundle_ntt120avx, NTT120Avx);
 
+
+/// C19 tie for the compressed blind-rotation key: decompression = standard encryption, GGSW by GGSW, cell by cell
+macro_rules! brkc_backend {
+    ($fname:ident, $be:ty) => {
+        fn $fname(t: &[&str]) -> String {
+            type BE = $be;
+            let n = kv_us(t, "n");
+            let nl = kv_us(t, "nl").max(1);
+            let bs = kv_us(t, "bs").max(1);
+            let rank = kv_us(t, "rank").max(1);
+            let b = kv_us(t, "b");
+            let kbrk = kv_us(t, "kbrk");
+            let (sxs, sxa, sxe) = (kv_u64(t, "sxs"), kv_u64(t, "sxa"), kv_u64(t, "sxe"));
+            let dnum = (kbrk.div_ceil(b) - 1).max(1);
+            let size = kbrk.div_ceil(b);
+            let module: Module<BE> = Module::<BE>::new(n as u64);
+            let mut scratch: ScratchOwned<BE> = ScratchOwned::alloc(1 << 24);
+            let deg = Degree(n as u32);
+            let noise = NoiseInfos::new(kbrk, 3.2, 19.2).unwrap();
+            let mut sk_glwe = GLWESecret::alloc(deg, Rank(rank as u32));
+            sk_glwe.fill_ternary_prob(0.5, &mut Source::new(seed32(sxs)));
+            let sk_vis = replay_secret(n, rank, Dist::TernaryProb(0.5), &mut Source::new(seed32(sxs)));
+            let sk_cols: Vec<Vec<i64>> = (0..rank).map(|i| sk_vis.at(i, 0).to_vec()).collect();
+            let mut sk_lwe = LWESecret::alloc(Degree(nl as u32));
+            sk_lwe.fill_binary_block(bs, &mut Source::new(seed32(sxs ^ 0x1111)));
+            let mut skp = module.glwe_secret_prepared_alloc(Rank(rank as u32));
+            module.glwe_secret_prepare(&mut skp, &sk_glwe);
+            let layout = BlindRotationKeyLayout {
+                n_glwe: deg,
+                n_lwe: Degree(nl as u32),
+                base2k: Base2K(b as u32),
+                k: TorusPrecision(kbrk as u32),
+                dnum: Dnum(dnum as u32),
+                rank: Rank(rank as u32),
+            };
+            // compressed key, its serialisation, a deserialised copy
+            let mut kc = BlindRotationKeyCompressed::<Vec<u8>, CGGI>::alloc(&layout);
+            module.blind_rotation_key_compressed_encrypt_sk(&mut kc, &skp, &sk_lwe, seed32(sxa), &noise, &mut Source::new(seed32(sxe)), scratch.borrow());
+            let mut bytes = Vec::new();
+            kc.write_to(&mut bytes).unwrap();
+            let mut kc2 = BlindRotationKeyCompressed::<Vec<u8>, CGGI>::alloc(&layout);
+            kc2.read_from(&mut &bytes[..]).unwrap();
+            let mut bytes2 = Vec::new();
+            kc2.write_to(&mut bytes2).unwrap();
+            let mut ser_ok = bytes2 == bytes && kc2 == kc;
+            // standard key with the same error stream
+            let mut ks = BlindRotationKey::<Vec<u8>, CGGI>::alloc(&layout);
+            module.blind_rotation_key_encrypt_sk(&mut ks, &skp, &sk_lwe, &noise, &mut Source::new(seed32(sxe)), &mut Source::new(seed32(sxa ^ 0x77)), scratch.borrow());
+            let mut sb = Vec::new();
+            ks.write_to(&mut sb).unwrap();
+            let (mut r, mut r2, mut rs): (&[u8], &[u8], &[u8]) = (&bytes, &bytes2, &sb);
+            for rr in [&mut r, &mut r2, &mut rs] {
+                let _ = read_u64(rr);
+                let _ = read_u64(rr);
+            }
+            let cols = rank + 1;
+            let mut top = Source::new(seed32(sxa));
+            let (mut nc, mut nm, mut nd, mut sw) = (0, 0, 0, true);
+            for _ in 0..nl {
+                let mut c = GGSWCompressed::alloc_from_infos(&layout);
+                c.read_from(&mut r).unwrap();
+                let mut c2 = GGSWCompressed::alloc_from_infos(&layout);
+                c2.read_from(&mut r2).unwrap();
+                let mut gs = GGSW::alloc_from_infos(&layout);
+                gs.read_from(&mut rs).unwrap();
+                let mut g = GGSW::alloc_from_infos(&layout);
+                module.decompress_ggsw(&mut g, &c);
+                let mut g2 = GGSW::alloc_from_infos(&layout);
+                module.decompress_ggsw(&mut g2, &c2);
+                ser_ok &= g == g2;
+                // seed of GGSW i = i-th new_seed of Source::new(seed_xa); its cells branch Source::new(seed_i) row-major
+                let mut w = [0u8; 32];
+                for q in 0..4 {
+                    w[8 * q..8 * q + 8].copy_from_slice(&(top.next_i64() as u64).to_le_bytes());
+                }
+                let mut inner = Source::new(w);
+                for row in 0..dnum {
+                    for col in 0..cols {
+                        let mut sd = [0u8; 32];
+                        for q in 0..4 {
+                            sd[8 * q..8 * q + 8].copy_from_slice(&(inner.next_i64() as u64).to_le_bytes());
+                        }
+                        let stored = c.seed()[row * cols + col];
+                        if stored != sd {
+                            sw = false;
+                        }
+                        let cd = g.at(row, col);
+                        let cs = gs.at(row, col);
+                        nc += 1;
+                        // masks from the stored seed, column order 1..rank
+                        let mut tmp = poulpy_hal::layouts::VecZnx::alloc(n, cols, size);
+                        let mut s = Source::new(stored);
+                        for i in 1..cols {
+                            poulpy_hal::api::VecZnxFillUniform::vec_znx_fill_uniform(&module, b, &mut tmp, i, &mut s);
+                        }
+                        let ok = (1..cols).all(|i| (0..size).all(|j| tmp.at(i, j) == cd.data().at(i, j)));
+                        nm += ok as i32;
+                        let e1 = errors_of(&cell_of(&cd, usize::MAX), &sk_cols, b);
+                        let e2 = errors_of(&cell_of(&cs, usize::MAX), &sk_cols, b);
+                        nd += (e1 == e2) as i32;
+                    }
+                }
+            }
+            format!("ok cells={nc} masks={nm} dec={nd} cellenc=-1 ser={} seedwords={}", ser_ok as i32, sw as i32)
+        }
+    };
+}
+
+brkc_backend!(brkc_fft64ref, FFT64Ref);
+brkc_backend!(brkc_ntt120ref, NTT120Ref);
+brkc_backend!(brkc_fft64avx, FFT64Avx);
+brkc_backend!(brkc_ntt120avx, NTT120Avx);
+
 fn groups_of(be: &str, lay: &str, t: &[&str], sxs: u64, sxa: u64, sxe: u64) -> Vec<Group> {
     if matches!(lay, "brk" | "brkc" | "cbt" | "bdd") {
         return match be {
@@ -378,6 +492,12 @@ fn run_case(op: &str, t: &[&str]) -> String {
     let lay = kv(t, "layout").unwrap_or("cbt").to_string();
     let (sxs, sxa, sxe) = (kv_u64(t, "sxs"), kv_u64(t, "sxa"), kv_u64(t, "sxe"));
     match op {
+        "brkc_check" => match be.as_str() {
+            "ntt120ref" => brkc_ntt120ref(t),
+            "fft64avx" => brkc_fft64avx(t),
+            "ntt120avx" => brkc_ntt120avx(t),
+            _ => brkc_fft64ref(t),
+        },
         "bstats" => {
             let reps = kv_us(t, "reps").max(1);
             // name -> (k, b, m, sum, sumsq, maxabs), in first-seen order
